@@ -962,7 +962,7 @@ func main() {
 	}
 	// ... and with a RUN of n replacements (Reload/Unload calls) in between, n around the widths a generation
 	// counter could have (2^8, 2^16; Reload is O(1)); nothing else is hashed in between
-	for j, n := range []int{2, 255, 256, 257, 65535, 65536, 65537, 131072} {
+	for _, n := range []int{2, 255, 256, 257, 65535, 65536, 65537, 131072} {
 		for v := 0; v < 2; v++ {
 			x := itemOfLen(r, vh.Pick(r, []int{20, 32, 36}))
 			szA, szB := vh.Pick(r, []int{8, 64}), vh.Pick(r, []int{3, 4096})
@@ -976,7 +976,6 @@ func main() {
 			}
 			h.Ops = append(h.Ops, opRec{Op: "matches", Data: vh.Hex(x)}, opRec{Op: "add", Data: vh.Hex(x)}, opRec{Op: "matches", Data: vh.Hex(x)})
 			runHistory(h, corrAll && n <= 2, fmt.Sprintf("reload-run:%d", n))
-			_ = j
 		}
 	}
 	// unloaded filters: no reload at all
